@@ -140,7 +140,10 @@ func init() {
 			"hang monitor: a call still running after 30 s (inputs <= 64 KiB; normal cost microseconds to milliseconds) is a hang; the monitor ends the phase when it fires",
 			"a panic is recovered per call and attributed to its input; fatal runtime errors are attributed through the in-flight slots",
 		},
-		Phases: plainPhase("fuzz"),
+		Phases: func(string) []mon.PhaseSpec {
+			// 16 GiB of address space: a parser that allocates from input numbers dies here (fatal, with the in-flight input) instead of exhausting the machine
+			return []mon.PhaseSpec{{Name: "fuzz", Flavour: "plain", UlimitVKB: 16 << 20}}
+		},
 		Run: func(c *mon.Ctx) {
 			corpus := logenc.Corpus()
 			if len(corpus) < 100 {
